@@ -122,6 +122,9 @@ def gen_patchset(rng, ws, *, dup=None):
                 t.append(round(rng.uniform(0, 50), 2) + 0.25)
             else:
                 t.append(rng.choice(["lo", "hi", "nominal"]))
+        if rng.random() < 0.12:
+            a0 = rng.randint(0, 120)
+            t = [a0 + i for i in range(nlabels)]   # small consecutive integers: what range() and bytes iterate as
         if tuples and rng.random() < 0.35:
             # look-alikes of an existing tuple that are nevertheless different keys
             base = list(rng.choice(tuples))
